@@ -182,7 +182,7 @@ Section RunE.
   Variable M : machine (option bytes) C.
   Definition run_e2e (c0 : C) (o : oracle) (client : bool) : sx :=
     let '(rs, _, _) := run_calls M Async (linit c0) o (repeat None (S (S (oracle_bytes o)))) in
-    L (map (fun r => res_sx (if client then client_convert r else r)) (until_aborted (map fst rs))).
+    L (map res_sx (until_aborted (map (fun ro => if client then client_convert (fst ro) else fst ro) rs))).
 End RunE.
 
 Definition run_e (i : sx) : sx :=
